@@ -1,0 +1,206 @@
+//go:build verif
+
+// Contracts for the deductive verifier in /verif (govc): previews of
+// zoekt-local-sync change nothing and announce what -f does (C33); -f hands
+// every discovered repository to the indexer and removes exactly the planned
+// shards (C34). Comment-only file, compiled only with -tags verif.
+
+package main
+
+// fsTouched (declared with the os contracts): a mutating file-system operation
+// has been attempted. forced: this run acquired the directory lock, which it
+// does only under -f.
+//@ ghost var forced bool
+// nRemoved / nIndexed: shards handed to removeShard / repositories handed to
+// the indexer so far.
+//@ ghost var nRemoved int
+//@ ghost var nIndexed int
+
+// ---------------------------------------------------------------------------
+// Effects of the callees (assumed where they leave this package)
+// ---------------------------------------------------------------------------
+
+// The indexer writes nothing in dry-run mode (its own guard clause, checked
+// in package gitindex: NewBuilder is reached only when !opts.DryRun).
+//@ func gitindex.IndexGitRepo
+//@   trusted
+//@   ensures opts.DryRun ==> fsTouched == old(fsTouched)
+//@   assigns fsTouched, effectFailed
+
+//@ func main.acquireDirectoryLock
+//@   trusted
+//@   assigns fsTouched
+
+// Discovery, inventory and planning only read the file system and build fresh
+// values (assumed frames).
+// (discoverRepositories also rejects two repositories with the same name or the
+// same source; the sources it returns are absolute, cleaned paths, on which
+// normalizeSource is the identity - hence pairwise distinct canonical sources.)
+//@ func main.discoverRepositories
+//@   trusted
+//@   ensures result1 == nil ==> (forall a, b int :: 0 <= a && a < b && b < len(result0) ==> normSrc(result0[a].Source) != normSrc(result0[b].Source))
+//@   assigns nothing
+//@ func main.readInventory
+//@   trusted
+//@   ensures result1 == nil ==> (forall j int :: 0 <= j && j < len(result0) ==> result0[j].Repository != nil)
+//@   assigns nothing
+//@ func main.normalizeSource
+//@   trusted
+//@   ensures result == normSrc(source)
+//@   assigns nothing
+//@ func main.normalizeIndexDir
+//@   trusted
+//@   assigns nothing
+//@ func main.splitBranches
+//@   trusted
+//@   assigns nothing
+//@ func main.recordsFromShards
+//@   trusted
+//@   assigns nothing
+//@ func main.selectRecords
+//@   trusted
+//@   assigns nothing
+
+// ---------------------------------------------------------------------------
+// Removal
+// ---------------------------------------------------------------------------
+
+// removeShard removes the files of one shard; it reports success only if every
+// removal that was needed succeeded.
+//@ func main.removeShard
+//@   loop 1:
+//@     invariant -1 <= i && i < len(paths)
+//@     invariant forall k int :: 0 <= k && k < len(errs) ==> errs[k] != nil
+//@     invariant errs == nil || freshsince(1, errs)
+//@     decreases i + 1
+//@     assigns fsTouched, effectFailed
+//@   ensures true
+//@   assigns fsTouched, effectFailed
+
+// applyRemovals: a preview removes nothing; with -f every planned action - and
+// nothing else - is handed to removeShard, in plan order.
+//@ func main.applyRemovals
+//@   loop 1:
+//@     invariant dryRun ==> fsTouched == old(fsTouched) && nRemoved == old(nRemoved)
+//@     invariant !dryRun ==> nRemoved == old(nRemoved) + $i + 1
+//@     invariant errs == nil || freshsince(1, errs)
+//@     decreases len(actions) - $i
+//@     assigns fsTouched, effectFailed, nRemoved
+//@   assert at call:removeShard: arg(0) == actions[$i+1].Shard && !dryRun
+//@   ghost at call:removeShard: nRemoved = nRemoved + 1
+//@   ensures dryRun ==> fsTouched == old(fsTouched) && nRemoved == old(nRemoved)
+//@   ensures !dryRun ==> nRemoved == old(nRemoved) + len(actions)
+//@   assigns fsTouched, effectFailed, nRemoved
+
+// ---------------------------------------------------------------------------
+// Indexing
+// ---------------------------------------------------------------------------
+
+// indexRepositories: every discovered repository is handed to the indexer
+// exactly once, under its discovered name and source, with the caller's
+// dry-run flag; a preview therefore writes nothing.
+//@ func main.indexRepositories
+//@   loop 1:
+//@     invariant opts.DryRun ==> fsTouched == old(fsTouched)
+//@     invariant nIndexed == old(nIndexed) + $i + 1
+//@     invariant errs == nil || freshsince(1, errs)
+//@     decreases len(repositories) - $i
+//@     assigns fsTouched, effectFailed, nIndexed
+//@   assert at call:IndexGitRepo: arg(0).DryRun == opts.DryRun && arg(0).RepoDir == repositories[$i+1].Source && arg(0).BuildOptions.RepositoryDescription.Name == repositories[$i+1].Name
+//@   ghost at call:IndexGitRepo: nIndexed = nIndexed + 1
+//@   ensures opts.DryRun ==> fsTouched == old(fsTouched)
+//@   ensures nIndexed == old(nIndexed) + len(repositories)
+//@   assigns fsTouched, effectFailed, nIndexed
+
+// removeRepositories passes its dry-run flag on unchanged: a preview removes
+// nothing.
+//@ func main.removeRepositories
+//@   may_panic
+//@   loop 1:
+//@     invariant fsTouched == old(fsTouched) && nRemoved == old(nRemoved)
+//@   loop 2:
+//@     invariant fsTouched == old(fsTouched) && nRemoved == old(nRemoved)
+//@   assert at call:applyRemovals: arg(1) == dryRun
+//@   ensures dryRun ==> fsTouched == old(fsTouched) && nRemoved == old(nRemoved)
+
+// ---------------------------------------------------------------------------
+// The two commands: nothing is touched unless -f was given
+// ---------------------------------------------------------------------------
+
+// runSync: the directory lock is taken only under -f; removals and indexing
+// run in preview mode exactly when it was not taken; neither runs when
+// discovery (which rejects duplicate repository names) or the inventory failed.
+// Hence without -f the file system is not touched.
+//@ func main.runSync
+//@   may_panic
+//@   requires !forced
+//@   assert at call:acquireDirectoryLock: config.force
+//@   ghost at call:acquireDirectoryLock: forced = true
+//@   assert at call:applyRemovals: arg(1) == !forced
+//@   assert at call:indexRepositories: arg(1).DryRun == !forced
+//@   assert at call:indexRepositories: arg(1).Incremental
+//@   guard call:applyRemovals by nilerr:discoverRepositories && nilerr:readInventory
+//@   guard call:indexRepositories by nilerr:discoverRepositories && nilerr:readInventory
+//@   ensures !forced ==> fsTouched == old(fsTouched)
+
+//@ func main.runRemove
+//@   may_panic
+//@   requires !forced
+//@   ghost at call:acquireDirectoryLock: forced = true
+//@   assert at call:removeRepositories: arg(2) == !forced
+//@   ensures !forced ==> fsTouched == old(fsTouched)
+
+// Filling in default build options writes only the options themselves
+// (assumed frame).
+//@ func index.(*Options).SetDefaults
+//@   trusted
+//@   flag only_for=main.runSync
+//@   assigns allfields("index.Options")
+//@ func main.(*directoryLock).Close
+//@   trusted
+//@   assigns nothing
+
+// ---------------------------------------------------------------------------
+// C34: which shards a sync removes
+// ---------------------------------------------------------------------------
+
+// normSrc: the canonical form of a source path (abstract; computed by
+// normalizeSource through path/filepath).
+//@ abstract func normSrc(s string) string
+// wanted(desired, src, name): some discovered repository has this canonical
+// source and this name.
+//@ pure func wanted(desired []repositorySpec, src string, name string) bool = exists k int :: 0 <= k && k < len(desired) && normSrc(desired[k].Source) == src && desired[k].Name == name
+
+// sort.Slice on the plan (assumed): a permutation (see package index for the
+// same contract on ranked documents).
+//@ abstract func planPerm(k int) int
+//@ func sort.Slice
+//@   trusted
+//@   flag only_for=main.planPrune
+//@   requires typeis(x, "[]pruneAction")
+//@   ensures forall k int :: {as(x, "[]pruneAction")[k]} 0 <= k && k < len(as(x, "[]pruneAction")) ==> 0 <= planPerm(k) && planPerm(k) < len(as(x, "[]pruneAction")) && as(x, "[]pruneAction")[k].Shard == old(as(x, "[]pruneAction")[planPerm(now(k))].Shard)
+//@   ensures forall j int :: {as(x, "[]pruneAction")[j]} 0 <= j && j < len(as(x, "[]pruneAction")) ==> (exists k int :: 0 <= k && k < len(as(x, "[]pruneAction")) && planPerm(k) == j)
+//@   assigns as(x, "[]pruneAction")[*]
+
+// planPrune: a shard is scheduled for removal exactly when no discovered
+// repository has its (canonical source, name) pair - nothing that is still
+// wanted is removed, and nothing unwanted stays. Stated for the plan as it is
+// handed to the final sort, which only permutes it (assumed).
+//@ func main.planPrune
+//@   requires forall a, b int :: 0 <= a && a < b && b < len(desired) ==> normSrc(desired[a].Source) != normSrc(desired[b].Source)
+//@   requires forall j int :: 0 <= j && j < len(shards) ==> shards[j].Repository != nil
+//@   loop 1:
+//@     invariant desiredBySource != nil && fresh(desiredBySource)
+//@     invariant forall key string :: {mapval(desiredBySource, key)} has(desiredBySource, key) ==> (exists k int :: 0 <= k && k <= $i && normSrc(desired[k].Source) == key)
+//@     invariant forall k int :: 0 <= k && k <= $i ==> has(desiredBySource, normSrc(desired[k].Source)) && desiredBySource[normSrc(desired[k].Source)].Name == desired[k].Name
+//@     decreases len(desired) - $i
+//@   loop 2:
+//@     invariant actions == nil || freshsince(2, actions)
+//@     invariant forall a int :: 0 <= a && a < len(actions) ==> (exists j int :: 0 <= j && j <= $i && actions[a].Shard == shards[j].Path && !wanted(desired, normSrc(shards[j].Repository.Source), shards[j].Repository.Name))
+//@     invariant forall j int :: 0 <= j && j <= $i && !wanted(desired, normSrc(shards[j].Repository.Source), shards[j].Repository.Name) ==> (exists a int :: 0 <= a && a < len(actions) && actions[a].Shard == shards[j].Path)
+//@     decreases len(shards) - $i
+//@     assigns deref(addr(actions))
+//@   assert at call:Slice: forall a int :: 0 <= a && a < len(actions) ==> (exists j int :: 0 <= j && j < len(shards) && actions[a].Shard == shards[j].Path && !wanted(desired, normSrc(shards[j].Repository.Source), shards[j].Repository.Name))
+//@   assert at call:Slice: forall j int :: 0 <= j && j < len(shards) && !wanted(desired, normSrc(shards[j].Repository.Source), shards[j].Repository.Name) ==> (exists a int :: 0 <= a && a < len(actions) && actions[a].Shard == shards[j].Path)
+//@   ensures true
+//@   assigns nothing
